@@ -1052,6 +1052,21 @@ def run_target(v, td, seed, flip, writer, tkind, overwrite):
             found.append(os.path.join(root, f))
     want = sorted(io.files(absp))
     v.ok(sorted(found) == want, pre + ":stray-files", lambda: "files %s, expected %s" % (sorted(found), want))
+    # the overwrite semantics hold for this path spelling too: replace with overwrite=True, refuse with overwrite=False
+    try:
+        io.write("B", p, True)
+        got = io.observe(absp)
+        v.ok(got == "B", pre + ":overwrite-existing:content", lambda: "%s overwrite=True onto existing %r: file holds %s, expected B" % (writer, str(p), got))
+    except Exception as e:  # noqa: BLE001
+        v.fail(pre + ":overwrite-existing:raised", "%s.output(%r, overwrite=True) onto an existing file raised %s: %s" % (writer, str(p), type(e).__name__, str(e)[:160]))
+    before = io.digest(absp)
+    raised = None
+    try:
+        io.write("A", p, False)
+    except Exception as e:  # noqa: BLE001
+        raised = e
+    v.ok(raised is not None, pre + ":no-overwrite-existing:did-not-raise", lambda: "%s overwrite=False onto existing %r did not raise" % (writer, str(p)))
+    v.ok(io.digest(absp) == before, pre + ":no-overwrite-existing:file-modified", lambda: "%s rejected write changed %r" % (writer, str(p)))
 
 
 def model_step(state, ev):
